@@ -11,6 +11,7 @@ import (
 	"math"
 
 	"github.com/go-openapi/spec"
+	"github.com/go-openapi/swag"
 )
 
 // symNum: a fully symbolic JSON number (float64), finite, |x| <= 2^53-1 (the JSON safe-integer
@@ -24,12 +25,12 @@ func symNum() float64 {
 	return f
 }
 
-// kfNearInteger: C01-KF-INT — non-integral f that the tolerance-based integer test
-// (relative distance to trunc(f) below 1e-9) takes for an integer.
+// kfNearInteger: C01-KF-INT — the non-integral numbers that the tolerance-based integer test used by
+// the type validator (swag.IsFloat64AJSONInteger: relative distance to the truncated value below
+// 1e-9) takes for integers, e.g. 3.0000000001. The region is written with the library predicate
+// itself so that it is exactly the set of failing inputs (and is decided propositionally).
 func kfNearInteger(f float64) bool {
-	g := math.Trunc(f)
-	diff := math.Abs(f - g)
-	return verifAnd(f > 0, f != g, g != 0, diff/(f+g) < 1e-9)
+	return verifAnd(f != math.Trunc(f), swag.IsFloat64AJSONInteger(f))
 }
 
 // schemaHasApplicators: anything beyond type/enum (what the nil-instance early exit skips)
@@ -286,7 +287,11 @@ func HarnessC01Object() {
 	}
 	obj := map[string]interface{}{}
 	if verifBool() {
-		obj["a"] = genObjValue()
+		if len(s.Dependencies) > 0 && verifBool() {
+			obj["a"] = nil // a member that is present with the value null still triggers its dependencies
+		} else {
+			obj["a"] = genObjValue()
+		}
 	}
 	if verifBool() {
 		obj["ab"] = genObjValue()
